@@ -25,7 +25,19 @@ var vhC03Tpl = []string{
 	"{% set q = {'y': m.a, 'x': m.b} %}{% for k, v in q %}{{ k }}{{ v }}{% endfor %}",
 	"{% include 'inc' with {'p': 1, 'o': 2} %}",
 	"{{ 'a' in m }}{{ m.a }}{{ m['b'] }}{{ tm.b }}",
+	"{% for k, v in fm %}{{ k }}={{ v }};{% endfor %}",
+	"{{ fm|keys|join(',') }}",
+	"{{ fm|first }}",
+	"{% for k, v in am %}{{ k }}={{ v }};{% endfor %}",
+	"{{ am|keys|join(',') }}",
+	"{{ am|first }}",
+	"{% for k, v in bm %}{{ k }}={{ v }};{% endfor %}{{ bm|keys|join(',') }}",
+	"{% for k, v in sm %}{{ k }}={{ v }};{% endfor %}",
+	"{{ sm|keys|join(',') }}",
+	"{{ sm|first }}",
 }
+
+type vhKeyT string
 
 func vhC03Ctx(order int, a, b, c string) map[string]interface{} {
 	m := map[string]interface{}{}
@@ -44,8 +56,48 @@ func vhC03Ctx(order int, a, b, c string) map[string]interface{} {
 		}
 		_ = i
 	}
-	return map[string]interface{}{"m": m, "tm": tm, "im": im, "m2": map[string]interface{}{"d": "4", "a": "0"},
+	// key types other than string and int: float, interface{}, bool, a named string type; 4 entries
+	fm := map[float64]string{}
+	am := map[interface{}]interface{}{}
+	bm := map[bool]string{}
+	sm := map[vhKeyT]int{}
+	fks := [][]float64{{0.5, 2.5, 10.5}, {10.5, 2.5, 0.5}, {2.5, 10.5, 0.5}}[order%3]
+	for _, f := range fks {
+		fm[f] = a
+		sm[vhKeyT("k"+strconv.Itoa(int(f)))] = int(f)
+	}
+	switch order % 3 {
+	case 0:
+		am[1.5], am["s"], am[true] = a, b, c
+	case 1:
+		am[true], am["s"], am[1.5] = c, b, a
+	default:
+		am["s"], am[true], am[1.5] = b, c, a
+	}
+	if order%2 == 0 {
+		bm[true], bm[false] = "x", "y"
+	} else {
+		bm[false], bm[true] = "y", "x"
+	}
+	return map[string]interface{}{"fm": fm, "am": am, "bm": bm, "sm": sm, "m": m, "tm": tm, "im": im, "m2": map[string]interface{}{"d": "4", "a": "0"},
 		"nested": map[string]interface{}{"n2": map[string]interface{}{"y": 1, "x": 2}, "n1": map[string]interface{}{"q": 3, "p": 4}}}
+}
+
+// vhC03Only keeps the context entries whose name occurs in the template source.
+func vhC03Only(ctx map[string]interface{}, src string) map[string]interface{} {
+	out := map[string]interface{}{}
+	for _, name := range []string{"fm", "am", "bm", "sm", "tm", "im", "m2", "nested", "m"} {
+		found := false
+		for i := 0; i+len(name) <= len(src); i++ {
+			if src[i:i+len(name)] == name && (i+len(name) == len(src) || !(src[i+len(name)] >= 'a' && src[i+len(name)] <= 'z') && !(src[i+len(name)] >= '0' && src[i+len(name)] <= '9')) && (i == 0 || !(src[i-1] >= 'a' && src[i-1] <= 'z')) {
+				found = true
+			}
+		}
+		if found {
+			out[name] = ctx[name]
+		}
+	}
+	return out
 }
 
 // VH_C03_MapOrder: two renders with independently chosen map iteration orders give equal bytes.
@@ -62,9 +114,11 @@ func VH_C03_MapOrder() {
 		symAssert(false, "corpus-template-parses")
 		return
 	}
-	o1, e1 := e.Render("t", vhC03Ctx(0, a, b, c))
+	// only the variables the template mentions are passed (keeps the adversary's choices to the maps under test)
+	o1, e1 := e.Render("t", vhC03Only(vhC03Ctx(0, a, b, c), vhC03Tpl[t]))
+	ctx2 := vhC03Only(vhC03Ctx(1+symChoice(2), a, b, c), vhC03Tpl[t])
 	symMapAdversary(true)
-	o2, e2 := e.Render("t", vhC03Ctx(1+symChoice(2), a, b, c))
+	o2, e2 := e.Render("t", ctx2)
 	symMapAdversary(false)
 	symCover("rendered")
 	symAssert(e1 == nil, "renders")
